@@ -6,6 +6,7 @@ export CARGO_NET_OFFLINE=true
 mkdir -p target evidence replays
 ( cd harness && cargo build --offline ) || exit 1
 ( cd gen06 && cargo build --offline ) || exit 1
+( cd harness && CARGO_TARGET_DIR="$(pwd)/../target/nopar" cargo build --offline --no-default-features --bin vnopar ) || exit 1
 # coverage-guided targets (thorough tiers); not fatal if the nightly fuzz build is unavailable
 ( cd harness && cargo +nightly fuzz build --fuzz-dir "$(pwd)/../fuzz" ) >/dev/null 2>&1 || echo "note: fuzz targets not built (thorough tiers fall back to proptest only)"
 exit 0
